@@ -214,7 +214,7 @@ PROPS = {
             'PLAIN does not check that init.mechanism == PLAIN and ignores fields after the third NUL (observed, not part of the property)']),
     'C06': dict(
         probes=[COMPOSITE_VARIANTS],
-        units=['FRAMEENC', 'FRAMEDEC', 'CONNENG', 'TRANSPORT', 'HDRCODEC', 'SASLNEG', 'HEADERS', 'READERS', 'BUILDER', 'WIRELAYOUT', 'SERHDR', 'ENUMCODES', 'SETTERS', 'VISITENUM', 'ATTACHBUILD'], kani=[], level='proof', title='Frames on the wire',
+        units=['FRAMEENC', 'FRAMEDEC', 'CONNENG', 'TRANSPORT', 'HDRCODEC', 'SASLNEG', 'HEADERS', 'READERS', 'BUILDER', 'WIRELAYOUT', 'SERHDR', 'ENUMCODES', 'SETTERS', 'VISITENUM', 'ATTACHBUILD', 'LINKATTACH'], kani=[], level='proof', title='Frames on the wire',
         lemmas={'HDRCODEC': ['lemma_header_round_trip'], 'FRAMEENC': ['lemma_expected_properties', 'lemma_cut_points', 'lemma_mids_payload', 'lemma_mids_sizes', 'lemma_flatten_append', 'lemma_payloads_append']},
         assumptions=[
             'precondition fits(): the transfer performative alone (in each of its three forms) is smaller than the frame body; a larger one is outside the contract (usize underflow / no progress)',
@@ -223,7 +223,7 @@ PROPS = {
             'a NON-transfer performative whose encoding exceeds the frame is refused with FramingError since fix 542518b ([C06.transport.non-transfer-whole]); nothing establishes that the engines handle that error gracefully (the connection engine treats it as a transport error)',
             'decoding under arbitrary read fragmentation is tokio_util LengthDelimitedCodec + FramedRead (third party), not verified']),
     'C01': dict(
-        units=['FRAMEENC', 'SESSION', 'SENDSPLIT', 'LINK', 'REASM', 'SESSENG', 'CONNENG', 'RESUME', 'BYTEREADER', 'WIRING', 'ACCLINK', 'LINKAPI', 'READERS', 'ACCDELEG', 'TXNDELEG', 'SENDINNER', 'SESSWIRING', 'LINKFLOW', 'CONNWIRING', 'WIRELAYOUT', 'SERHDR', 'RESUMESPLIT', 'ENUMCODES', 'SETTERS', 'VALUEDE', 'LINKBUILDER', 'DELIVERY'],
+        units=['FRAMEENC', 'SESSION', 'SENDSPLIT', 'LINK', 'REASM', 'SESSENG', 'CONNENG', 'RESUME', 'BYTEREADER', 'WIRING', 'ACCLINK', 'LINKAPI', 'READERS', 'ACCDELEG', 'TXNDELEG', 'SENDINNER', 'SESSWIRING', 'LINKFLOW', 'CONNWIRING', 'WIRELAYOUT', 'SERHDR', 'RESUMESPLIT', 'ENUMCODES', 'SETTERS', 'VALUEDE', 'LINKBUILDER', 'DELIVERY', 'LINKATTACH'],
         lemmas={'SENDSPLIT': ['lemma_link_expected', 'lemma_link_mids'], 'FRAMEENC': ['lemma_expected_properties', 'lemma_mids_payload']}, kani=[], level='proof', title='End-to-end delivery (sequential stages only)',
         assumptions=[ASYNC, ENGINE,
             'only the sequential stages are under contract: session hold-back/stamping (SESSION) and frame splitting (FRAMEENC); link-level split, reassembly and the codec round trip are separate units where built',
